@@ -94,6 +94,61 @@ pub fn large(v: &mut Vec<(String, String, String)>, facts: &mut Vec<(String, i12
     if refilled != room || w.arch_q.capacity() != cap {
         fail(v, "C12", "cannot-refill-to-capacity", format!("refilled {} of {} free positions, capacity {} -> {}", refilled, room, cap, w.arch_q.capacity()));
     }
+    // fork at this size: the replica answers like the original (sampled), then diverges
+    {
+        let mut c = w.clone();
+        if c.arch_q.len() != w.arch_q.len() || c.arch_q.capacity() != w.arch_q.capacity() {
+            fail(v, "C13", "clone-len-capacity", format!("clone len {} capacity {} vs {} {}", c.arch_q.len(), c.arch_q.capacity(), w.arch_q.len(), w.arch_q.capacity()));
+        }
+        for i in (0..N).step_by(499).chain([4095usize, 4096, 4097, 65535, 65536, 65537, 131072, N - 1]) {
+            check_one(&mut c, i, alive[i], v);
+        }
+        let mut seen_c = 0usize;
+        let mut bad_c = 0usize;
+        ecs_iter_borrow!(c, |e: &Entity<ArchQ>, a: &CompA, b: &CompB| {
+            seen_c += 1;
+            if let Some(i) = index.get(&e.into_any().raw()) {
+                if !(alive[*i] && a.obs().payload == pa(*i) && b.obs().payload == pb(*i)) {
+                    bad_c += 1;
+                }
+            }
+        });
+        if seen_c != c.arch_q.len() || bad_c != 0 {
+            fail(v, "C13", "clone-values", format!("clone pass saw {} items, {} with values that are not their entity's", seen_c, bad_c));
+        }
+        let some = hs.iter().enumerate().find(|(i, _)| alive[*i]).map(|(i, e)| (i, *e)).unwrap();
+        c.destroy(some.1);
+        if !w.contains(some.1) || c.contains(some.1) {
+            fail(v, "C13", "clone-not-independent", "a destroy in the clone is visible in the original (or not in the clone)".into());
+        }
+        drop(c);
+    }
+    // drain completely, then reuse: no old handle may come back, no old handle may resolve
+    let all: Vec<Entity<ArchQ>> = w.arch_q.entities().to_vec();
+    for e in &all {
+        if w.arch_q.destroy(*e).is_none() {
+            fail(v, "C01", "live-handle-rejected-by-destroy", format!("drain: destroy({:?}) returned None", e));
+            return;
+        }
+    }
+    if w.arch_q.len() != 0 || !w.arch_q.is_empty() {
+        fail(v, "C12", "len-mismatch", format!("after draining len {}", w.arch_q.len()));
+    }
+    let issued: std::collections::HashSet<(u32, u32)> = all.iter().map(|e| e.into_any().raw()).chain(hs.iter().map(|e| e.into_any().raw())).collect();
+    for k in 0..2000usize {
+        let e = w.arch_q.create((CompA::make(3), CompB::make(4)));
+        if issued.contains(&e.into_any().raw()) {
+            fail(v, "C08", "handle-issued-twice", format!("after a complete drain, creation {} returned the old handle {:?}", k, e));
+            return;
+        }
+    }
+    for i in (0..N).step_by(1013) {
+        if w.contains(hs[i]) {
+            fail(v, "C01", "dead-handle-accepted", format!("stale handle #{} resolves after drain and reuse", i));
+            return;
+        }
+    }
+    facts.push(("large_drained_then_reused".into(), 2000));
     facts.push(("large_entities".into(), N as i128));
     facts.push(("large_removed".into(), removed as i128));
     facts.push(("large_refilled".into(), refilled as i128));
